@@ -101,10 +101,15 @@ func pkgFindings(d *pkgData, o *pkgObs) []finding {
 			}
 			sort.Ints(all)
 			sort.Ints(val)
-			if !intsEq(all, o.Methods[i][0]) {
+			// the property is about the SET of methods (the order is the model's concern)
+			gotAll := append([]int(nil), o.Methods[i][0]...)
+			gotVal := append([]int(nil), o.Methods[i][1]...)
+			sort.Ints(gotAll)
+			sort.Ints(gotVal)
+			if !intsEq(all, gotAll) {
 				add("methods", "MethodsOf(%s, true) = %v, declared methods %v", q.Label, o.Methods[i][0], all)
 			}
-			if !intsEq(val, o.Methods[i][1]) {
+			if !intsEq(val, gotVal) {
 				add("methods", "MethodsOf(%s, false) = %v, declared value-receiver methods %v", q.Label, o.Methods[i][1], val)
 			}
 		}
